@@ -226,4 +226,17 @@ PolyCase(k, as) == [fam |-> "polyarg", id |-> "polyarg/" \o ToString(k) \o "/" \
 PolyCases == { PolyCase(1, <<PolyArgs[i]>>) : i \in 1..Len(PolyArgs) }
         \cup { PolyCase(2, <<PolyArgs[i], PolyArgs[j]>>) : i \in 1..Len(PolyArgs), j \in 1..Len(PolyArgs) }
         \cup { PolyCase(3, <<PolyArgs3[i], PolyArgs3[j], PolyArgs3[k]>>) : i \in 1..Len(PolyArgs3), j \in 1..Len(PolyArgs3), k \in 1..Len(PolyArgs3) }
+
+\* ------------------------------------------------- 7 the last result inside a function body
+\* `ans` / `_` name the last result.  A function body that mentions one of them is type-checked when the function is
+\* DEFINED (with the type the last result has then) and evaluated when it is CALLED (with the last result of that moment).
+\* Class = kind of the last result at definition x use of it in the body x kind of the last result at the call.
+\* Whatever the answer, it must be a value or a reported error.
+AnsKinds == << <<"2 m", "ans + 1 m">>, <<"3 s", "_ * 2">>, <<"4", "ans^2">>, <<"\"str\"", "str_length(ans)">>, <<"true", "!ans">>,
+               <<"[1, 2]", "len(ans)">>, <<"sin", "ans(0)">>, <<"now()", "ans + 1 s">> >>
+AnsCase(i, plain, j) == [fam |-> "stale-ans", id |-> "stale-ans/" \o ToString(i) \o (IF plain THEN "p" ELSE "u") \o "/" \o ToString(j),
+                         parts |-> << P(AnsKinds[i][1], 1), P("\nfn zfa() = ", 1), P(IF plain THEN "ans" ELSE AnsKinds[i][2], 1), P("\n", 1),
+                                      P(AnsKinds[j][1], 1), P("\nzfa()", 1) >>,
+                         sess |-> "prelude", exact |-> "na", n |-> 2, val |-> "", lit |-> "na", rep |-> 1]
+AnsCases == { AnsCase(i, pl, j) : i \in 1..Len(AnsKinds), pl \in BOOLEAN, j \in 1..Len(AnsKinds) }
 =============================================================================
